@@ -162,7 +162,7 @@ func runFormat(c fcfg, doc obj) (o obsv) {
 		in = deepCopy(doc).(obj)
 	}
 	res := proxy.NewEntityFormatter(c.backend()).Format(proxy.Response{Data: in, IsComplete: true})
-	return obsv{data: res.Data}
+	return observed(res.Data)
 }
 
 const repeats = 3
@@ -381,6 +381,10 @@ func main() {
 	gin.SetMode(gin.ReleaseMode)
 	if cfg.Extra == "reuse-child" {
 		concurrentChild()
+		return
+	}
+	if strings.HasPrefix(cfg.Extra, "child:") {
+		childMain(cfg.Extra)
 		return
 	}
 	r := rng.New(cfg.Seed)
@@ -647,12 +651,19 @@ func main() {
 	if cfg.Thorough() {
 		nE2E = 5000
 	}
-	e2eStream(w, r, nE2E)
+	e2eStream(w, cfg, r, nE2E)
+
+	// ------------------------------------------------------------------ concurrent first use
+	nFirst := 50
+	if cfg.Thorough() {
+		nFirst = 600
+	}
+	firstUseStream(w, cfg, r, nFirst)
 
 	w.Meta["format_runs"] = formatRuns
 	w.Meta["repeats_per_configuration"] = repeats
 	w.Meta["inputs_with_run_dependent_output"] = orderDependent
-	w.Close(fmt.Sprintf("corpus %d documents x %d configurations; small scope: every document over the keys x every allow and deny list of <=2 paths (see small_scope) and 8 shaping configurations; random documents (depth<=6, width<=5, keys empty/dotted/non-ASCII, arrays, null) x random target/allow|deny/mapping/group with paths walking the document; decoder+formatter through the http proxy and the gin pipeline (arrays/objects/null/scalars x is_collection); endpoints with 2-3 backends (own options each; disjoint and overlapping top-level keys; failing decoders) through the default factory's parallel merge and the gin JSON render, client body compared with the composed model (overlap winner open) and with the boolean no-leak form; instance reuse: one formatter / http proxy per configuration driven through sequences of 3-9 related documents (corpus + random) and hit by 8 goroutines x 150 calls (each distinct (document, observation) pair is a case); every other Format configuration run %d times on fresh copies (map order), a case carries the first observation and whether all runs agreed; nontrivial = some option set", len(corpusDocs), len(corpusCfgs), repeats), true)
+	w.Close(fmt.Sprintf("corpus %d documents x %d configurations; small scope: every document over the keys x every allow and deny list of <=2 paths (see small_scope) and 8 shaping configurations; random documents (depth<=6, width<=5, keys empty/dotted/non-ASCII, arrays, null) x random target/allow|deny/mapping/group with paths walking the document; decoder+formatter through the http proxy and the gin pipeline (arrays/objects/null/scalars x is_collection); the consumer scribbles into every returned Data map after copying it; concurrent first use of fresh formatters with 50-200 listed paths (child process); endpoints with 2-3 backends in a child process, arrival order at the merge imposed, target misses arriving first (own options each; disjoint and overlapping top-level keys; failing decoders) through the default factory's parallel merge and the gin JSON render, client body compared with the composed model (overlap winner open) and with the boolean no-leak form; instance reuse: one formatter / http proxy per configuration driven through sequences of 3-9 related documents (corpus + random) and hit by 8 goroutines x 150 calls (each distinct (document, observation) pair is a case); every other Format configuration run %d times on fresh copies (map order), a case carries the first observation and whether all runs agreed; nontrivial = some option set", len(corpusDocs), len(corpusCfgs), repeats), true)
 }
 
 // ---- decoder + formatter: http proxy level and whole pipeline behind gin ----
@@ -759,7 +770,8 @@ func runProxy(c fcfg, isCollection bool, body []byte) (res *obsv) {
 	if err != nil || resp == nil {
 		return nil
 	}
-	return &obsv{data: resp.Data}
+	o := observed(resp.Data)
+	return &o
 }
 
 // whole pipeline: default factory + gin endpoint handler; the JSON body the client gets
